@@ -205,3 +205,47 @@ def old_draw_wezterm(m, meta):
     finally:
         ITerm2Image._supported, ITerm2Image._TERM, ITerm2Image._TERM_VERSION = saved
     return {"reproduced": bool(problems), "input": "ITerm2Image.draw() of 2-frame GIFs on a WezTerm terminal, every small height / padding / alignment", "observed": problems[:2]}
+
+
+def kitty_animation(m, meta):
+    """KittyImage animations: every frame is sent at the reserved z-index (whatever z_index the caller passed) and either with
+    blend off (kitty > 0.25.0) or preceded by a delete of exactly that z-index (older versions)"""
+    import re
+    import tests  # noqa: F401
+    from term_image.image import KittyImage
+    import term_image.image.common as common
+    common.time.sleep = lambda s: None
+    saved = (KittyImage._supported, KittyImage._KITTY_VERSION)
+    KittyImage._supported = True
+    problems = []
+    try:
+        for version in ((0, 21, 0), (0, 25, 0), (0, 25, 1), (0, 31, 0), ()):
+            KittyImage._KITTY_VERSION = version
+            for style in ({}, {"z_index": 5}, {"z_index": -7, "mix": True}):
+                image = KittyImage(_gif(3))
+                image.set_size(height=2)
+                buf = _Tty()
+                old = sys.stdout
+                sys.stdout = buf
+                import term_image.image.kitty as K
+                old_w = K._stdout_write
+                K._stdout_write = buf.write            # bound to the real stdout at import time
+                try:
+                    image.draw("<", 0, "^", 2, repeat=1, **style)
+                finally:
+                    sys.stdout = old
+                    K._stdout_write = old_w
+                cmds = [dict(kv.split("=", 1) for kv in c.split(";")[0].split(",") if "=" in kv) for c in re.findall(r"\x1b_G([^\x1b]*)\x1b\\", buf.getvalue())]
+                draws = [c for c in cmds if c.get("a") == "T"]
+                dels = [c for c in cmds if c.get("a") == "d"]
+                newer = bool(version) and version > (0, 25, 0)
+                errs = []
+                if any(c.get("z") != str(-(1 << 31)) for c in draws):
+                    errs.append(("frames drawn at z", sorted({c.get("z") for c in draws})))
+                if not newer and version and (len(dels) < 2 or any(c.get("d", "").lower() != "z" or c.get("z") != str(-(1 << 31)) for c in dels)):
+                    errs.append(("per-frame deletes", dels[:3]))
+                if errs:
+                    problems.append({"kitty_version": version, "style": style, "failed": errs})
+    finally:
+        KittyImage._supported, KittyImage._KITTY_VERSION = saved
+    return {"reproduced": bool(problems), "input": "3-frame GIF drawn by KittyImage for several kitty versions and z_index arguments", "observed": problems[:2]}
